@@ -28,6 +28,15 @@ type c18Case struct {
 	Verdicts []int   `json:"verdicts"`
 }
 
+// jsonQuote: a JSON string literal (strconv.Quote writes \x7f and \a, which JSON does not know).
+func jsonQuote(s string) string {
+	cp := []int{}
+	for _, r := range s {
+		cp = append(cp, int(r))
+	}
+	return quoteCP(cp)
+}
+
 func enumText(items []Value, layout int) string {
 	lits := make([]string, len(items))
 	for i, it := range items {
@@ -228,7 +237,7 @@ func init() {
 				bad("regex", text, "AddType: "+err.Error(), "")
 				return
 			}
-			inline := jschema.New("inline", strconv.Quote(string(exb))+" // {regex: "+strconv.Quote(pat)+"}")
+			inline := jschema.New("inline", jsonQuote(string(exb))+" // {regex: "+jsonQuote(pat)+"}")
 			for di, want := range c.Verdicts {
 				d := docs[di].JSON()
 				a := guard(func() error { return named.Validate(jdoc.New("d", d)) })
